@@ -25,6 +25,8 @@ func chunkings(class string, n int, tier string) []chunking {
 			{name: "1", size: 1, zeroAt: -1},
 			{name: "2", size: 2, zeroAt: -1},
 			{name: "7", size: 7, zeroAt: -1},
+			{name: "9", size: 9, zeroAt: -1},
+			{name: "1000", size: 1000, zeroAt: -1},
 			{name: "halves", halves: true, zeroAt: -1},
 		}
 	case "eof-with-data":
